@@ -148,7 +148,8 @@ fn cache_schedules(r: &mut Report, rng: &mut Rng, n: u64) {
             let role = special.filter(|(who, _)| *who == id).map(|(_, clean)| clean);
             handles.push(std::thread::spawn(move || {
                 let _enter = TEST_RUNTIME.enter();
-                std::thread::sleep(std::time::Duration::from_millis(think.0));
+                // the gc / clean invocation starts first, the others while it is at work
+                std::thread::sleep(std::time::Duration::from_millis(if role.is_some() { 0 } else if special.is_some() { 4 + 2 * think.0 } else { think.0 }));
                 let pc = PartialConfig {
                     cli: { let crate::cli::FakeCli::Vet(cli) = crate::cli::FakeCli::try_parse_from(["cargo", "vet"]).unwrap(); cli },
                     now: mock_now(),
@@ -168,7 +169,9 @@ fn cache_schedules(r: &mut Report, rng: &mut Rng, n: u64) {
                         Some(false) => { cache.gc_sync(std::time::Duration::from_secs(0)); Ok(()) }
                         None => tokio::runtime::Handle::current().block_on(cache.crates_io_info(Some(&network), &name)).map(|_| ()).map_err(|e| format!("info: {e:?}")),
                     };
-                    std::thread::sleep(std::time::Duration::from_millis(think.0 / 2));
+                    // (a gc / clean keeps the cache for a while after its work, so that invocations
+                    // starting meanwhile have to wait for it)
+                    std::thread::sleep(std::time::Duration::from_millis(if role.is_some() { 25 } else { think.0 / 2 }));
                     if holders.load(Ordering::SeqCst) != 1 {
                         overlap.fetch_add(1, Ordering::SeqCst);
                     }
